@@ -274,6 +274,7 @@ def schedules(p1: int, p2: int, t1: int, t2: int, forced: List[int], fires: List
     if fail_at > fmax:
         return ctx.done(True)
     fail_at = ctx.pick(fail_at, [x for x in range(-1, fmax + 1) if x != 0])
+    fires = list(fires)[:B('FIRES')]
     with _untraced():
         ok, why = check(ctx.S('producers'), ctx.S('writes'), fail_at, Oracle(pre, tg, forced, fires, ctx.S('nforced')))
     ctx.mark('schedule')
@@ -299,7 +300,7 @@ def _buckets(steps, k):
 
 
 _QB = {'STEPS': 200, 'FORCED': 4, 'FIRES': 2, 'FAILMAX': 4}
-_TB = {'STEPS': 200, 'FORCED': 5, 'FIRES': 3, 'FAILMAX': 6}
+_TB = {'STEPS': 220, 'FORCED': 5, 'FIRES': 2, 'FAILMAX': 5}
 CONDITIONS = [
     {'fn': 'schedules', 'nontrivial': 'schedule',
      'what': 'every schedule with <= P preemptions (statement / attribute-load granularity), every forced-switch choice, '
@@ -310,9 +311,11 @@ CONDITIONS = [
                                    [{'producers': 2, 'writes': 1, 'preemptions': 1, 'bucket': b, 'nforced': 2, 'failmax': 2} for b in _buckets(180, 12)],
                          'witness_shard': {'producers': 1, 'writes': 1, 'preemptions': 1, 'bucket': [0, 200]}},
                'thorough': {'bounds': _TB, 'timeout': 20000,
-                            'shards': [{'producers': 1, 'writes': 1, 'preemptions': 2, 'bucket': b} for b in _buckets(120, 24)] +
-                                      [{'producers': 2, 'writes': 1, 'preemptions': 1, 'bucket': b} for b in _buckets(180, 12)] +
-                                      [{'producers': 2, 'writes': 2, 'preemptions': 1, 'bucket': b} for b in _buckets(200, 12)] +
-                                      [{'producers': 3, 'writes': 1, 'preemptions': 1, 'bucket': b} for b in _buckets(200, 12)],
+                            'shards': [{'producers': 1, 'writes': 1, 'preemptions': 2, 'bucket': b, 'nforced': 0, 'failmax': -1, 'b.FIRES': 1}
+                                       for b in _buckets(120, 24)] +
+                                      [{'producers': 1, 'writes': 2, 'preemptions': 1, 'bucket': b} for b in _buckets(140, 7)] +
+                                      [{'producers': 2, 'writes': 1, 'preemptions': 1, 'bucket': b, 'nforced': 3, 'failmax': 4} for b in _buckets(180, 18)] +
+                                      [{'producers': 2, 'writes': 2, 'preemptions': 1, 'bucket': b, 'nforced': 2, 'failmax': 2} for b in _buckets(200, 20)] +
+                                      [{'producers': 3, 'writes': 1, 'preemptions': 1, 'bucket': b, 'nforced': 1, 'failmax': 1} for b in _buckets(220, 22)],
                             'witness_shard': {'producers': 1, 'writes': 1, 'preemptions': 1, 'bucket': [0, 200]}}}},
 ]
